@@ -234,11 +234,19 @@ def install(flags=()):  # noqa: C901, PLR0915
     import json as _json
 
     _orig_json_dump = _json.dump
+    _orig_json_load = _json.load
 
     def _json_dump_realizing(obj, fp, *a, **kw):
-        return _orig_json_dump(_deep_realize(obj), fp, *a, **kw)
+        obj = _deep_realize(obj)
+        with NoTracing():  # native encoder (CrossHair's pure-Python jsonlib is ~100x slower)
+            return _orig_json_dump(obj, fp, *a, **kw)
+
+    def _json_load_native(fp, *a, **kw):
+        with NoTracing():
+            return _orig_json_load(fp, *a, **kw)
 
     _PATCH_REGISTRATIONS[_json.dump] = _json_dump_realizing
+    _PATCH_REGISTRATIONS[_json.load] = _json_load_native
     import numpy as _np
 
     def _realizing(fn):
